@@ -109,6 +109,9 @@ class FnTranslator:
         self.own_methods = {}          # method name -> qualified name of a translated method it resolves to
         self.builder_methods = set()   # methods of foreign builder types that are built-ins of the same name
         self.uses_features = False
+        self.aux_fns = []              # functions made from closures (see filter_map_lifted)
+        self.scope_names = set()       # parameters and let-bound names of the function being translated
+        self.fn_qualified = ""
         self.param_types = {}
 
     def con_name(self, segs):
@@ -255,6 +258,17 @@ class FnTranslator:
             if self.interior and "::".join(segs) in ("RefMut::map", "Ref::map") and len(e) == 4 and e[3][0] == "closure" \
                     and len(e[3][1]) == 2 and e[3][1][1][0] == "pident" and e[3][2] == ["path", e[3][1][1][1]]:
                 return self.expr(e[2])             # a borrow mapped through the identity closure
+            muts = [S(a[1][1]) for a in e[2:] if a[0] == "refmut" and a[1][0] == "path" and len(a[1]) == 2]
+            if muts:
+                # `f(.., &mut x, ..)` with f an operation of another component: f answers (result, new value of x); x takes it
+                name = "::".join(segs)
+                if not (self.interior and len(muts) == 1 and FOREIGN.get(name, "").startswith("call:")):
+                    raise TranslateError("`&mut` argument in a call of %s" % name)
+                x, tgt = muts[0], FOREIGN[name][5:]
+                self.calls.add(tgt)
+                argl = clist([("(EVar %s)" % cs(x)) if a[0] == "refmut" else self.expr(a) for a in e[2:]])
+                return ("(EBlock [SLet (PCon \"()\" [PVar \"st_res\"; PVar \"st_new\"]) (ECall %s %s); "
+                        "SExpr (EAssign %s [] (EVar \"st_new\")); STail (EVar \"st_res\")])" % (cs(tgt), argl, cs(x)))
             args = clist([self.expr(a) for a in e[2:]])
             if self.interior and segs == ["Self", "default"] and len(e) == 2 and self.struct_fields and getattr(self, "derive_default", False):
                 # `#[derive(Default)]`: every field takes the default of its type
@@ -337,6 +351,9 @@ class FnTranslator:
             if self.interior and name == "find" and len(e) == 4 and e[3][0] == "closure" and e[1][0] == "mcall" and \
                     S(e[1][2]) in ("into_iter", "iter") and len(e[1]) == 3:
                 return self.array_find(e[1][1], e[3])
+            if self.interior and name == "collect" and len(e) == 3 and e[1][0] == "mcall" and S(e[1][2]) == "filter_map" and \
+                    len(e[1]) == 4 and e[1][3][0] == "closure" and getattr(self, "lift_closures", False):
+                return self.filter_map_lifted(e[1][1], e[1][3])
             if self.interior and name == "collect" and len(e) == 3 and e[1][0] == "mcall" and S(e[1][2]) in ("copied", "cloned") and len(e[1]) == 3:
                 return self.expr(["mcall", e[1][1], e[2]])      # `.copied()` / `.cloned()` of an iterator: the same elements
             if self.interior and name == "contains" and len(e) == 4:
@@ -427,6 +444,10 @@ class FnTranslator:
                 return "(EMatch %s (cfg_arms enabled_features %s))" % (
                     self.expr(e[1]), clist(["(%s, %s)" % (clist([cs(x) for x in fs]), t) for fs, t in arms]))
             return "(EMatch %s %s)" % (self.expr(e[1]), clist([t for _, t in arms]))
+        if h == "try" and self.interior and getattr(self, "closure_state", None) is not None:
+            # `e?` on an Option inside a lifted closure: None ends the closure with None (and the captured state as it is)
+            return ("(EMatch %s [(PCon \"Some\" [PVar \"try_v\"], EVar \"try_v\"); (PCon \"None\" [], EReturn %s)])" % (
+                self.expr(e[1]), self.closure_wrap("(ECon \"None\" [])")))
         if h == "try" and self.interior:
             # `e?`: the definition of the operator (the error is converted with From::from and returned)
             return ("(EMatch %s [(PCon \"Ok\" [PVar \"try_v\"], EVar \"try_v\"); "
@@ -467,6 +488,8 @@ class FnTranslator:
             return "EContinue"
         if h == "break":
             return "EBreak"
+        if h == "return" and getattr(self, "closure_state", None) is not None:
+            return "(EReturn %s)" % self.closure_wrap(self.expr(e[1]) if len(e) > 1 else "(EConst VUnit)")
         if h == "return":
             return "(EReturn %s)" % (self.expr(e[1]) if len(e) > 1 else "(EConst VUnit)")
         if h == "macro":
@@ -655,6 +678,64 @@ class FnTranslator:
                 "STail (EAssign \"fm_res%d\" [] %s)]) (EConst VUnit))])); "
                 "STail (EVar \"fm_res%d\")])" % (n, self.expr(src), n, n, n, n, cs(v), n, n, n, body, n))
 
+    def closure_wrap(self, text):
+        """the result of a lifted closure: its value together with the captured variables it may have updated"""
+        return "(ECon \"()\" %s)" % clist([text] + ["(EVar %s)" % cs(x) for x in self.closure_state])
+
+    def filter_map_lifted(self, src, clo):
+        """`xs.filter_map(|v| { .. }).collect()` with a closure that uses `?` / `return` and may hand a captured local on as
+        `&mut`: the closure becomes a function of its own (parameter, captured variables; result: its value and the captured
+        variables it updates); the loop keeps the `Some` results in order and carries the updated variables along"""
+        if len(clo[1]) != 2 or clo[1][1][0] != "pident":
+            raise TranslateError("closure with other than one plain parameter")
+        v = S(clo[1][1][1])
+        body = clo[2]
+        names, muts, local = [], [], {v}
+
+        def walk(x):
+            if isinstance(x, list) and x:
+                if x[0] == "path" and len(x) == 2 and S(x[1]) not in names:
+                    names.append(S(x[1]))
+                if x[0] == "refmut" and x[1][0] == "path" and len(x[1]) == 2 and S(x[1][1]) not in muts:
+                    muts.append(S(x[1][1]))
+                if x[0] == "pident":
+                    local.add(S(x[1]))
+                for y in x[1:]:
+                    walk(y)
+        walk(body)
+        captured = [n for n in names if n not in local and n in self.scope_names and not n[:1].isupper()]
+        for m_ in muts:
+            if m_ not in captured:
+                raise TranslateError("closure borrows %s mutably, which is not a captured local" % m_)
+        self.hof_no = getattr(self, "hof_no", 0) + 1
+        n = self.hof_no
+        fname = "%s::closure%d" % (self.fn_qualified, n)
+        sub = FnTranslator(self.self_type, self.struct_fields)
+        for k_, val in self.__dict__.items():
+            if k_ not in ("calls", "closure_state", "hof_no"):
+                setattr(sub, k_, val)
+        sub.calls = set()
+        sub.closure_state = list(muts)
+        sub.hof_no = 100 * n
+        btext = sub.block(body)
+        # the value of the body is its tail expression: wrapped like every `return`
+        btext = "(EBlock [SLet (PVar \"clo_res\") %s; STail %s])" % (btext, sub.closure_wrap("(EVar \"clo_res\")"))
+        self.calls |= sub.calls
+        self.aux_fns.append("{| fn_name := %s; fn_params := %s; fn_consts := [];\n     fn_body := %s |}" % (
+            cs(fname), clist([cs(v)] + [cs(c) for c in captured]), btext))
+        self.calls.add(fname)
+        pat = "(PCon \"()\" %s)" % clist(["PVar \"fmc_r%d\"" % n] + ["PVar %s" % cs("fmc_st_" + m_) for m_ in muts])
+        upd = "; ".join("SExpr (EAssign %s [] (EVar %s))" % (cs(m_), cs("fmc_st_" + m_)) for m_ in muts)
+        return ("(EBlock [SLet (PVar \"fmc_src%d\") %s; SLet (PVar \"fmc_acc%d\") (EArr []); "
+                "SExpr (EFor \"fmc_i%d\" (EConst (VNat 0)) (ECall \"len\" [EVar \"fmc_src%d\"]) "
+                "(EBlock [SLet %s (ECall %s %s); %s"
+                "STail (EIfLet (PCon \"Some\" [PVar \"fmc_x%d\"]) (EVar \"fmc_r%d\") "
+                "(EAssign \"fmc_acc%d\" [] (ECall \"push\" [EVar \"fmc_acc%d\"; EVar \"fmc_x%d\"])) (EConst VUnit))])); "
+                "STail (EVar \"fmc_acc%d\")])" % (
+                    n, self.expr(src), n, n, n, pat, cs(fname),
+                    clist(["(EIndex (EVar \"fmc_src%d\") (EVar \"fmc_i%d\"))" % (n, n)] + ["(EVar %s)" % cs(c) for c in captured]),
+                    (upd + "; ") if upd else "", n, n, n, n, n, n))
+
     def array_all(self, src, clo):
         """`xs.into_iter().all(|v| COND)`: whether every element satisfies COND (COND has no effects)"""
         v, cond = self.closure1(clo)
@@ -743,6 +824,9 @@ def cfg_feature_list(text):
     return feats
 
 
+LAST_AUX_FNS = []      # functions lifted from closures by the last translate_fn calls (the caller collects and clears them)
+
+
 def translate_fn(sx, self_type=None, struct_fields=None, qualified=None, setup=None):
     """(fn "name" (consts ..) (params (p name type)..) (cfg "..") body) -> (coq fn_def text, callee set)"""
     if sx[0] != "fn":
@@ -761,6 +845,16 @@ def translate_fn(sx, self_type=None, struct_fields=None, qualified=None, setup=N
             params.append((S(p[1]), S(p[2])))
     body = sx[5]
     t.param_types = dict(params)
+    t.fn_qualified = qualified or name
+    t.scope_names = {pn for pn, _ in params}
+
+    def collect_lets(x):
+        if isinstance(x, list) and x:
+            if x[0] == "pident":
+                t.scope_names.add(S(x[1]))
+            for y in x[1:]:
+                collect_lets(y)
+    collect_lets(body)
     for pn, pt in params:
         if pt == "&mut self" and getattr(t, "stateless_self", False) and not t.struct_fields:
             continue                # `&mut self` of a type without fields: there is nothing to mutate
@@ -795,7 +889,9 @@ def translate_fn(sx, self_type=None, struct_fields=None, qualified=None, setup=N
         btext = "(EBlock %s)" % clist(prelude + ["STail %s" % btext])
     text = "{| fn_name := %s; fn_params := %s; fn_consts := %s;\n     fn_body := %s |}" % (
         cs(qualified or name), clist([cs(p[0]) for p in params]), clist(cbind), btext)
-    return text, t.calls
+    if t.aux_fns:
+        LAST_AUX_FNS.extend(t.aux_fns)
+    return text, t.calls - {a.split('"')[1] for a in t.aux_fns}
 
 
 def fetch_ast(path):
@@ -1185,7 +1281,21 @@ def translate_generics():
     missing = [w for w in wanted if w not in got]
     if missing:
         raise TranslateError("utils.rs: functions not found: %s" % missing)
-    return out + [got[w] for w in wanted]
+
+    # MsgVariants::new (types/msg_variant.rs): the variants of one kind, and the generics / bounds of the message type
+    def setup_mv(t):
+        t.interior = True
+        t.lift_closures = True
+        t.accessor_methods = {"attr_msg", "attrs_to_forward", "into_sig", "msg_type"}
+        t.own_methods = {"used_unused": "CheckGenerics::used_unused"}
+    FOREIGN["MsgVariant::new"] = "call:extern::MsgVariant::new"
+    del LAST_AUX_FNS[:]
+    mv = translate_methods("types/msg_variant.rs", {"MsgVariants": ["new"]}, setup=setup_mv,
+                           kv=fetch_ast(os.path.join(common.REPO, "sylvia-derive", "src", "types", "msg_variant.rs")),
+                           extra_known=known | {"extern::MsgVariant::new", "filter_wheres", "CheckGenerics::used_unused"})
+    aux = list(LAST_AUX_FNS)
+    del LAST_AUX_FNS[:]
+    return out + [got[w] for w in wanted] + mv + aux
 
 
 def translate_checks():
